@@ -80,6 +80,9 @@ class DrillholeScenario(BaseScenario):
                      "DEPTH sits at the reference position of that depth (path at creation or current path); every cell joins the positions of its FROM and TO; "
                      "each added value is attached to its depth / interval and nowhere else. distinct = distinct abstract trace; non-trivial = >= 2 additions and "
                      ">= 1 re-open / GC / collar or survey edit between or after them.")
+        self.stubs = ["h5repack (subprocess)", "memory numpy.divide(where=...) leaves unwritten: poison proxy on geoh5py.objects.drillhole.np (fault N7; it fires only where the "
+                      "library lets numpy allocate the output -- since repair 650b4fb compute_deviation passes out=, so 'poison_divide' stays 0 on the repaired tree "
+                      "while 'poison_configured' counts the runs that carried a poison value)"]
         self.assumptions = ["new depths / intervals are generated either clearly inside the tolerance of exactly one existing entry or clearly outside every tolerance (ambiguous "
                             "collocations have no defined attribution)", "beyond a zero-length last leg whose stations differ in direction positions are not judged",
                             "h5py/HDF5/numpy are trusted; the fault model for numpy is its documented freedom to leave where=False outputs uninitialised"]
@@ -288,6 +291,8 @@ class DrillholeScenario(BaseScenario):
                 path = sim.path("d.geoh5")
                 ws = Workspace.create(path, ga_version="4.2", contributors=["sim"])
                 r0 = random.Random(H(seed, "build"))
+                if cfg.get("poison") is not None:
+                    sim.probe("poison_configured")
                 sim.begin_op(H(seed, "ids"))
                 kwargs = {"name": "well"}
                 if cfg["start"] in ("collar", "full"):
